@@ -561,6 +561,7 @@ def b_sorted(eng, st, a, kw):
         st.assume(z3.ForAll([i, j], z3.Implies(z3.And(i >= 0, i < j, j < n), out(i) < out(j)), patterns=[z3.MultiPattern(out(i), out(j))]))
         lv = ListV(n, lambda k: IntV(out(k)))
         lv.sorted_of = (src, pos)
+        eng.seed_funs.append(pos)
         return lv
     seq = eng.as_seq(src, st)
     n = seq.n
